@@ -142,7 +142,11 @@ def oracle_ext(res, xd, rest, endpoint, cases, multi=None):
             res.fail('C17', 'the decoder renders the RFC octets of a %s community as a text that denotes another value' % k,
                      dict(case, rfc=sp['hex'], decoded=text, text_of_value=sp['text']), key='text-of-value:' + k)
             continue
-        out = rest.post_attr(endpoint, 16, [text])
+        # (every third request names other attributes as well - LOCAL_PREF, MED: what the view does for one attribute must not
+        # depend on which others the request carries)
+        nth = res.stats.hist.get('oracle_' + k, 0) if hasattr(res.stats, 'hist') else 0
+        extra = {'5': 200, '4': 7} if nth % 3 == 2 else None
+        out = rest.post_attr(endpoint, 16, [text], extra=extra)
         if 'hex' not in out:
             res.fail('C17', 'REST %s does not accept the decoded text of a %s community' % (endpoint, k),
                      dict(case, text=text, rest=out), key='rest-rejects:' + k)
@@ -636,6 +640,15 @@ def run(seed, tier, driver):
             lst = [r.choice(cases) for _ in range(r.randrange(2, 7))]
             multi.append(lst)
         multi.append([cases[0]] * 31)
+        # two and three communities of the SAME kind with different fields in one attribute, for every kind
+        by_kind = {}
+        for kf in cases:
+            by_kind.setdefault(kf[0], []).append(kf)
+        for kd in sorted(by_kind):
+            lst = by_kind[kd]
+            if len(lst) >= 2:
+                multi.append([lst[0], lst[-1]])
+                multi.append([lst[-1], lst[len(lst) // 2], lst[0]])
         for kind in ('as4', 'as2', 'nocaps'):
             rest = I.Rest(kind)
             if rest.state != 'ESTABLISHED':
